@@ -68,6 +68,20 @@ CLAIMED = {
             "misses; the expected order and first-match results are computed by the model, not by the lookup code. The "
             "upper-snake-case constants are probed by compiling one program per unit (E2).",
             TRUST_E1, "5.9"),
+    "C13": (E1, "bounded exhaustive exploration of rate construction, reciprocal, rate*q, q*rate, q/rate and their inverse paths on the real code against an exact-rational reference model",
+            "All 56 ordered type pairs of a representative set x all term/per/operand units x alphabet amounts; accessors "
+            "and reciprocal bit-exact, products and quotients against exact rationals, inverse and reciprocal agreement "
+            "on every depth-2 path.",
+            TRUST_E1, "5.13"),
+    "C14": (E1, "exhaustive enumeration of ALL conversion tables up to 3 entries over a 3-unit type (20 440 tables) and breadth-first closure of the temperature table, against a literal transcription of the statement / exact formulas",
+            "Complete table space up to N = 3 (first-match, missing-pair and same-unit clauses bit-exact); temperature "
+            "table explored to depth 3 with exact formulas and path oracles.",
+            TRUST_E1, "5.14"),
+    "C15": (E1, "exhaustive enumeration of a format-specification grid x units x amounts on the real code against an independent layout model and an exact-rational rounding oracle",
+            "Every combination of flag, fill/alignment, width and precision of the grid for every selected unit and amount, "
+            "both back-ends; the amount text is judged by parsing it back / by exact rational comparison, the layout by an "
+            "independent re-implementation.",
+            TRUST_E1 + " str formatting of std is the definition of 'ordinary string formatting rules'; f64/Decimal FromStr are trusted for the parse-back clause.", "5.15"),
     "C16": (E1, "exhaustive enumeration of the finite input domains (all i8, all short strings over the abbreviation alphabet)",
             "Complete over all 25 prefixes, all 256 exponents and all strings of length <= 2 (thorough: <= 3) over an "
             "alphabet that contains every abbreviation character, its case swaps and the micro-sign look-alike.",
